@@ -437,6 +437,51 @@ fn main() {
             }
         }
         res.cov("slow_body_requests", slow_n);
+        // the key in force when a request arrives signs it, also on a connection opened under another key (or none)
+        let mut ka_n = 0u64;
+        for (clabel, rec, hidx, _elev) in &callers {
+            for (before, after) in [(None, K1), (Some(K1), K2), (Some(K2), K1)] {
+                w.set_key(before);
+                let host = w.hosts.all()[*hidx];
+                if let Ok(mut c) = w.connect(Some(next_port()), Some(rec)) {
+                    for step in 0..3usize {
+                        if step == 1 {
+                            w.set_key(Some(after));
+                        }
+                        let want = if step == 0 { before } else { Some(after) };
+                        let hv: Vec<(&str, &[u8])> = vec![("Host", b"metadata"), ("Metadata", b"true")];
+                        let raw = build_request("GET", "/a?b=c", &hv, None, None);
+                        let cur = host.cursor();
+                        let st = c.send(&raw).map_err(|e| e.to_string()).and_then(|_| c.read_response(false, Duration::from_secs(10)).map(|m| m.status()));
+                        let at_host: Vec<Msg> = host.requests_since(cur).into_iter().map(|(_, m)| m).collect();
+                        evals += 1;
+                        ka_n += 1;
+                        let case = json!({"family": "keep-alive-key-change", "caller": clabel, "key_when_connection_opened": before.map(|k| k.0), "key_latched_later": after.0, "request_on_connection": step + 1});
+                        nontrivial.insert(case.to_string());
+                        if st != Ok(200) || at_host.len() != 1 {
+                            res.violation("proxied:not-relayed", &format!("keep-alive request: status {:?}, {} requests at host", st, at_host.len()), case);
+                            break;
+                        }
+                        relayed += 1;
+                        let sent: Vec<String> = hv.iter().map(|h| h.0.to_lowercase()).collect();
+                        match (want, hostcheck::verify_signature(&at_host[0], &keys, &sent)) {
+                            (Some(k), SigVerdict::Valid { guid, .. }) => {
+                                sig_valid += 1;
+                                if guid != k.0 {
+                                    res.violation("proxied:wrong-key-id:keep-alive", &format!("signed with {guid} while {} is the latched key (the connection was opened under {:?})", k.0, before.map(|k| k.0)), case);
+                                }
+                            }
+                            (Some(k), SigVerdict::Unsigned) => res.violation("proxied:unsigned-while-key-latched:keep-alive", &format!("relayed without authorization header while {} is latched (the connection was opened under {:?})", k.0, before.map(|k| k.0)), case),
+                            (None, SigVerdict::Unsigned) => {}
+                            (None, SigVerdict::Valid { .. }) => res.violation("proxied:signed-without-key", "authorization header although no key is latched", case),
+                            (_, SigVerdict::Bad(why)) => res.violation("proxied:mac-invalid:keep-alive", &why, case),
+                        }
+                    }
+                    c.close();
+                }
+            }
+        }
+        res.cov("keepalive_key_change_requests", ka_n);
         // exempt uploads: relayed unchanged, no signature demanded; while no key: nothing signed
         w.set_key(Some(K1));
         for (m, t, exempt) in [("PUT", "/vmAgentLog", true), ("POST", "/machine/?comp=telemetrydata", true), ("PUT", "/VMAGENTLOG", true), ("PUT", "/vmAgentLog?x=1", false), ("POST", "/vmAgentLog", false), ("PUT", "/machine/?comp=telemetrydata", false)] {
